@@ -22,6 +22,26 @@ type FuncReport struct {
 	obls        []*Obligation
 }
 
+// numberStmts gives type switches (and other snapshot anchors) their ordinal within the function.
+func numberStmts(body *ast.BlockStmt) map[ast.Node]int {
+	m := map[ast.Node]int{}
+	cnt := map[string]int{}
+	ast.Inspect(body, func(nd ast.Node) bool {
+		switch s := nd.(type) {
+		case *ast.TypeSwitchStmt:
+			cnt["typeswitch"]++
+			m[s] = cnt["typeswitch"]
+		case *ast.SwitchStmt:
+			cnt["switch"]++
+			m[s] = cnt["switch"]
+		case *ast.FuncLit:
+			return false
+		}
+		return true
+	})
+	return m
+}
+
 func numberLoops(body *ast.BlockStmt) map[ast.Stmt]int {
 	m := map[ast.Stmt]int{}
 	n := 0
@@ -82,6 +102,7 @@ func verifyFunc(prog *Program, fi *FuncInfo, con *FuncContract) (rep *FuncReport
 		return
 	}
 	x.loopOrd = numberLoops(fi.Decl.Body)
+	x.stmtOrd = numberStmts(fi.Decl.Body)
 	st := &State{vars: map[types.Object]Term{}, mem: map[string]Term{}}
 	a0 := x.ctx.fresh("alloc0", "Int")
 	st.alloc = Term{S: a0, Sort: "Int"}
@@ -111,6 +132,14 @@ func verifyFunc(prog *Program, fi *FuncInfo, con *FuncContract) (rep *FuncReport
 	}
 	x.old = st.clone()
 	env := x.specEnvAt(st, fi.Decl.Body.Lbrace+1)
+	// ghost global variables: register their sorts so that assigns clauses can havoc them
+	for name, te := range prog.Contracts.GhostVars {
+		func() {
+			defer func() { recover() }()
+			t := env.resolveType(te)
+			x.memSort["G!ghost."+name] = x.ctx.sortOf(t)
+		}()
+	}
 	// global axioms of the contract files
 	for _, ax := range prog.Contracts.Axioms {
 		genv := &SpecEnv{x: x, st: st, old: st, bound: map[string]Term{}, names: map[string]Term{}, pkg: fi.Pkg.Types}
@@ -126,6 +155,7 @@ func verifyFunc(prog *Program, fi *FuncInfo, con *FuncContract) (rep *FuncReport
 				st.assume(f)
 			}
 		}
+		x.useClauses(con.Use, env, st)
 		x.old.pc = append([]string(nil), st.pc...)
 	}
 	x.cover(st, "requires", fi.Decl)
